@@ -466,12 +466,13 @@ Qed.
 (* ====================================================================== the message round trip, with the decoded keys *)
 
 (* keys a decoded record can have besides the original ones: a PDS carrier filled by the packing, the sub-elements of a
-   carrier that was supplied directly, and ICC tags *)
+   carrier that was supplied directly, ICC tags, and the named groups of a DE43 splitting pattern (never CSV columns:
+   [col_okb] admits only MTI / DE / PDS columns, and the encoder ignores them) *)
 Definition cs_extra (cfg : cfgT) (m : dict) (k : key) : Prop :=
   match k with
   | KDE n => ir_has_pds m = true /\ exists c, cfg_get cfg n = Some c /\ f_proc c = PPDS
   | KPDS _ => exists n c v, lookup m (KDE n) = Some v /\ cfg_get cfg n = Some c /\ f_proc c = PPDS
-  | KTAG _ | KICC => True
+  | KTAG _ | KICC | KOther _ => True
   | _ => False
   end.
 
@@ -498,22 +499,23 @@ Lemma cs_dkeys : forall cfg m1 mti ents k,
      (k = KDE b \/
       (f_proc c = PPDS /\ is_pds_key k = true /\
        exists s sub x, v = VStr s /\ pds_to_dict s = Ok sub /\ In (k, x) sub))) \/
-  ir_tag_key k = true.
+  (ir_tag_key k = true \/ exists s, k = KOther s).
 Proof.
   intros cfg m1 mti ents k Hents Hk.
   destruct (lookup (dupdate [(KMTI, VStr mti)] (concat ents)) k) as [x|] eqn:El; [|contradiction Hk; reflexivity].
   apply ir_lookup_in in El. apply ir_in_dupdate in El. destruct El as [El|El].
   - destruct El as [El|[]]. left. congruence.
   - right. destruct (ir_forall2_concat_in _ _ _ _ Hents El) as [b [es [_ [[c [v [Hc [Hv Hf]]]] Hx]]]].
-    destruct (ir_fent_in _ _ _ _ _ _ Hf Hx) as [[K1 _]|[[K1 [K2 [s [sub [K3 [K4 K5]]]]]]|K]].
+    destruct (ir_fent_in _ _ _ _ _ _ Hf Hx) as [[K1 _]|[[K1 [K2 [s [sub [K3 [K4 K5]]]]]]|[K|[p0 [n0 [_ [_ [K _]]]]]]]].
     + left. exists b, c, v. auto.
     + left. exists b, c, v. split; [exact Hc|]. split; [exact Hv|]. right.
       split; [exact K1|]. split; [exact K2|]. exists s, sub, x. auto.
-    + right. exact K.
+    + right. left. exact K.
+    + right. right. exists n0. exact K.
 Qed.
 
-Lemma cs_tag_extra : forall cfg m k, ir_tag_key k = true -> cs_extra cfg m k.
-Proof. intros cfg m k H. destruct k; try discriminate; exact I. Qed.
+Lemma cs_tag_extra : forall cfg m k, (ir_tag_key k = true \/ exists s, k = KOther s) -> cs_extra cfg m k.
+Proof. intros cfg m k [H|[s H]]; [destruct k; try discriminate; exact I|subst k; exact I]. Qed.
 
 Lemma cs_roundtrip_nopds : forall cfg cd hexbm m,
   wf_cfgb cfg = true -> codec_okb cd = true -> wf_msgb cfg cd m = true -> ir_has_pds m = false ->
@@ -690,7 +692,7 @@ Proof.
         subst tv'. reflexivity.
     + intros x Hx.
       destruct (ir_forall2_concat_in _ _ _ _ Hents Hx) as [b0 [es [Hb [[c [v [Hc [Hv Hfe]]]] Hxe]]]].
-      destruct (ir_fent_in _ _ _ _ _ _ Hfe Hxe) as [[K _]|[[Hp [_ [s [sub [Ev [Hsub Hxs]]]]]]|K]];
+      destruct (ir_fent_in _ _ _ _ _ _ Hfe Hxe) as [[K _]|[[Hp [_ [s [sub [Ev [Hsub Hxs]]]]]]|[K|[p0 [s0 [_ [_ [K _]]]]]]]];
         try discriminate.
       subst v. destruct (Hcar_of b0 c _ Hc Hp Hv) as [g' [Hg' Eg']]. inversion Eg'; subst s.
       destruct (Hgrp g' Hg') as [G1' [G2' [G3' G4']]]. rewrite G3' in Hsub. inversion Hsub; subst sub.
